@@ -20,8 +20,10 @@ def unit_eval_parse():
     f = between('instance.cpp', r'^bool Instance::eval\(const size_t argc, char\* const\* argv\) \{', r'^    CScript::const_iterator it = script\.begin\(\);', include_end=False)
     f = rewrite(f, [(r'bool Instance::eval\(const size_t argc, char\* const\* argv\) \{', 'bool verif_eval_parse(const size_t argc, char* const* argv) {', 1),
                     # R-VLA / R-LIBC: the variable-length buffer gets the model's capacity, snprintf("%d") its model
-                    (r'char buf\[vlen \+ 1\];', 'char buf[VERIF_TOKEN_CAP + 2]; VERIF_LIMIT(vlen <= VERIF_TOKEN_CAP, "token length");', 1),
-                    (r'snprintf\(buf, vlen \+ 1, "%d", n\);', 'verif_snprintf_d(buf, vlen + 1, n);', 1)])
+                    (r'char buf\[vlen \+ 1\];', 'char buf[VERIF_TOKEN_CAP + 2]; VERIF_LIMIT(vlen <= VERIF_TOKEN_CAP, "token length");', None),
+                    (r'snprintf\(buf, ([^,]+), "%d", n\);', r'verif_snprintf_d(buf, \1, n);', None)])
+    if re.search(r'\bsnprintf\s*\(', f) or re.search(r'\bchar \w+\[(?!VERIF_)[^\]0-9][^\]]*\];', f):
+        raise SliceError("R-VLA / R-LIBC: a variable-length array or an unmodelled snprintf form is left in exec's token parser")
     t += f + '    *g_parsed_script = script;\n    return true;\n}\n'
     t = rewrite(t, R_TYPES + R_LIMITS)
     t = r_throw(t, THROW_TABLE)
@@ -46,8 +48,10 @@ def unit_value_ctor():
     c = replace_block_body(c, r"^        if \(vlen > 3 && v\[vlen-1\] == '\)'\) \{", 'verif_unmodelled("inline function call"); return;')
     # R-TERN: `c ? 0 : atoll(v)` is typed as int by CBMC's front end (arms of different integer width): spelled as if/else
     c = rewrite(c, [(r'int64 = non_numeric \? 0 : atoll\(v\);', 'if (non_numeric) int64 = 0; else int64 = atoll(v);', 1)])
-    c = rewrite(c, [(r'char buf\[vlen \+ 1\];', 'char buf[VERIF_TOKEN_CAP + 2]; VERIF_LIMIT(vlen <= VERIF_TOKEN_CAP, "token length");', 1),
-                    (r'snprintf\(buf, vlen \+ 1, "%" PRId64, int64\);', 'verif_snprintf_d(buf, vlen + 1, int64);', 1)])
+    c = rewrite(c, [(r'char buf\[vlen \+ 1\];', 'char buf[VERIF_TOKEN_CAP + 2]; VERIF_LIMIT(vlen <= VERIF_TOKEN_CAP, "token length");', None),
+                    (r'snprintf\(buf, ([^,]+), "%" PRId64, int64\);', r'verif_snprintf_d(buf, \1, int64);', None)])
+    if re.search(r'\bsnprintf\s*\(', c) or re.search(r'\bchar \w+\[(?!VERIF_)[^\]0-9][^\]]*\];', c):
+        raise SliceError("R-VLA / R-LIBC: a variable-length array or an unmodelled snprintf form is left in the Value constructor")
     t += c + '};\n'
     t = rewrite(t, R_TYPES + R_LIMITS)
     t = r_throw(t, THROW_TABLE)
